@@ -338,6 +338,10 @@ class Evaluator:
         raise KeyError(attr)
 
     def descend(self, attr, p):
+        if any(ch in attr for ch in " []()'\"^$%&*!=<>~\\,:"):
+            # the attribute is re-read as a YAML Path of its own; how characters that had to be escaped in the outer path
+            # are to be read there is not documented (the library re-parses the bare text: `sp\ ace` looks for `space`)
+            raise Abstain("attribute text needing escapes used as a descendant path")
         sub = Evaluator(attr_path(attr))
         try:
             return sub.run_from(p)
